@@ -49,6 +49,8 @@ def sa_bases(S):
         ("join-tags", "orm", lambda: sa.select(I).join(I.tags), False),
         ("order", "orm", lambda: sa.select(I).order_by(I.k.desc(), I.id), True),
         ("join-owner-order", "orm", lambda: sa.select(I).join(I.owner).order_by(O.rank, I.id.desc()), True),
+        ("extra-column", "orm-rows", lambda: sa.select(I, (I.k + 10).label("z")).order_by(I.k, I.id), True),
+        ("extra-column-where", "orm-rows", lambda: sa.select(I, sa.func.coalesce(I.s1, "-").label("z")).where(I.k >= 0), False),
         ("legacy", "legacy", lambda: S.session.query(I), False),
         ("legacy-filter", "legacy", lambda: S.session.query(I).filter(I.k >= 0), False),
         ("legacy-join-owner", "legacy", lambda: S.session.query(I).join(I.owner), False),
@@ -62,6 +64,8 @@ def sa_bases(S):
 
 
 def sa_rows(S, kind, q):
+    if kind == "orm-rows":
+        return [(r[0].id, r[1]) for r in S.session.execute(q).all()]
     if kind == "orm":
         return [o.id for o in S.session.execute(q).scalars().all()]
     if kind == "legacy":
@@ -165,6 +169,7 @@ def check_case(case, fenced=True):
             S.session.expunge_all()
             try:
                 unf = "core" if kind == "core" else ("legacy" if kind == "legacy" else "orm")
+                kind_sql = "orm" if kind == "orm-rows" else kind
                 if unf not in keep:
                     u = {"orm": lambda: S.sa.select(S.Item), "legacy": lambda: S.session.query(S.Item),
                          "core": lambda: S.sa.select(S.Item.__table__)}[unf]()
